@@ -47,6 +47,13 @@ def F2(lean, file, cname=None, fuel=None, **kw):
     return F(lean, file, cname, fuel, stage=2, **kw)
 
 
+def F3(lean, file, cname=None, fuel=None, **kw):
+    """a stage-3 function (reads / writes a struct through a pointer; NOTES_cfun3.md): third table of Gen/CFun.lean.
+    `fieldbase={"p.f": "a"}`: in this function the pointer field `p->f` points into the array parameter `a` (it is assigned
+    from it); `drop_params=[..]`: `const char*` parameters that only feed statements on opaque (unmodelled) fields."""
+    return F(lean, file, cname, fuel, stage=3, **kw)
+
+
 # Order matters only in that a callee must come before its callers.  `fuel`: one number per loop of the function
 # (in source order); the `_defined` predicate is false if a loop runs out of fuel, and the link theorems prove it
 # does not.
@@ -161,6 +168,62 @@ FUNCS += [
     F2("syn_be_le", SYNTH),
     F2("syn_runs", SYNTH, fuel=["{size}.toNat + 1", 10]),
     F2("syn_do_once", SYNTH, fuel=[21]),
+]
+
+# ---- stage 3: functions that read and write a struct through a pointer (NOTES_cfun3.md)
+FUNCS += [
+    # A. src/core/bitpack.c: bit reader / bit writer
+    F3("carquet_bit_reader_init", "src/core/bitpack.c", fieldbase={"reader.data": "data"}),
+    F3("refill_buffer", "src/core/bitpack.c", fuel=[9]),
+    F3("carquet_bit_reader_read_bit", "src/core/bitpack.c"),
+    F3("carquet_bit_reader_read_bits", "src/core/bitpack.c"),
+    F3("carquet_bit_reader_read_bits64", "src/core/bitpack.c"),
+    F3("carquet_bit_reader_has_more", "src/core/bitpack.c"),
+    F3("carquet_bit_reader_remaining_bits", "src/core/bitpack.c"),
+    F3("carquet_bit_writer_init", "src/core/bitpack.c", fieldbase={"writer.data": "data"}),
+    F3("flush_buffer", "src/core/bitpack.c", fuel=[9]),
+    F3("carquet_bit_writer_write_bit", "src/core/bitpack.c"),
+    F3("carquet_bit_writer_write_bits", "src/core/bitpack.c"),
+    F3("carquet_bit_writer_write_bits64", "src/core/bitpack.c"),
+    F3("carquet_bit_writer_flush", "src/core/bitpack.c"),
+    F3("carquet_bit_writer_bytes_written", "src/core/bitpack.c"),
+    # B. src/core/buffer.c: the read cursor
+    F3("carquet_buffer_reader_init_data", "src/core/buffer.c", fieldbase={"reader.data": "data"}),
+    F3("carquet_buffer_reader_read", "src/core/buffer.c"),
+    F3("carquet_buffer_reader_skip", "src/core/buffer.c"),
+    F3("carquet_buffer_reader_read_byte", "src/core/buffer.c"),
+    F3("carquet_buffer_reader_read_u16_le", "src/core/buffer.c"),
+    F3("carquet_buffer_reader_read_u32_le", "src/core/buffer.c"),
+    F3("carquet_buffer_reader_read_u64_le", "src/core/buffer.c"),
+    # C. src/thrift/thrift_decode.c: the primitive readers and the error latch
+    F3("set_error", "src/thrift/thrift_decode.c", drop_params=["msg"]),
+    F3("read_byte_raw", "src/thrift/thrift_decode.c"),
+    F3("thrift_read_varint", "src/thrift/thrift_decode.c", fuel=[11]),
+    F3("thrift_read_zigzag", "src/thrift/thrift_decode.c"),
+    F3("thrift_read_byte", "src/thrift/thrift_decode.c"),
+    F3("thrift_read_i16", "src/thrift/thrift_decode.c"),
+    F3("thrift_read_i32", "src/thrift/thrift_decode.c"),
+    F3("thrift_read_i64", "src/thrift/thrift_decode.c"),
+    F3("thrift_read_bool", "src/thrift/thrift_decode.c"),
+    F3("thrift_read_struct_begin", "src/thrift/thrift_decode.c"),
+    F3("thrift_read_struct_end", "src/thrift/thrift_decode.c"),
+    F3("thrift_read_field_begin", "src/thrift/thrift_decode.c"),
+    F3("thrift_read_list_begin", "src/thrift/thrift_decode.c"),
+    # E. src/encoding/rle.c: the decoder pieces that are not recursive (start_new_run calls itself: outside the subset)
+    F3("carquet_rle_decoder_init", "src/encoding/rle.c", fieldbase={"dec.data": "data"}),
+    F3("carquet_rle_decoder_has_next", "src/encoding/rle.c"),
+    F3("fill_bitpack_buffer", "src/encoding/rle.c"),
+    # D. src/core/bitpack.c: the caller of carquet_bitunpack8_32 (run-time memset / memcpy, a padded local copy)
+    F3("carquet_bitunpack_32", "src/core/bitpack.c", fuel=["{count}.toNat / 8 + 1", 9]),
+    # synthetic (harness/cfun_synth.h): constructs of stage 3 that the carquet functions above do not use
+    F3("syn_take", SYNTH),
+    F3("syn_peek2", SYNTH),
+    F3("syn_pump", SYNTH, fuel=[6]),
+    F3("syn_skip2", SYNTH),
+    F3("syn_copy", SYNTH),
+    F3("syn_partial", SYNTH),
+    F3("syn_inner_init", SYNTH, fieldbase={"s.cur": "data"}),
+    F3("syn_sum2", SYNTH),
 ]
 
 
@@ -2295,6 +2358,8 @@ class Fn:
                     raise Untranslatable("unnamed parameter")
                 pv = self.ptr_view(c["type"])
                 st = self.struct_ptr(c["type"]) if pv is None else None
+                if c["name"] in self.cfg.get("drop_params", ()):
+                    pv = None
                 if pv is not None and c["name"] in self.cfg.get("ends", {}):
                     # the `end` of a `(p, end)` pair: a second pointer into the array of parameter `p`, an offset
                     base = self.cfg["ends"][c["name"]]
@@ -2305,6 +2370,12 @@ class Fn:
                         raise Untranslatable(f"`{c['name']}` and `{base}` have different element types")
                     env[c["name"]] = (ident(c["name"]), pt_)
                     self.cparams.append(dict(name=c["name"], struct=None, t=pt_, ctype=c["type"]["qualType"], kind="end", base=base))
+                elif c["name"] in self.cfg.get("drop_params", ()):                 # stage 3: an unmodelled `const char*`
+                    if type_key(c["type"]) != "char *":
+                        raise Untranslatable(f"dropped parameter `{c['name']}` is not a `const char*`")
+                    self.cparams.append(dict(name=c["name"], struct=None, t=None, ctype=c["type"]["qualType"], kind="dropped"))
+                elif st is not None and self.cfg["stage"] == 3:                    # stage 3: struct state
+                    self.struct_param3(c, struct_name_of(c["type"], True, self), env, outs_params, body)
                 elif st is not None:
                     self.ptr_params[c["name"]] = st
                     self.cparams.append(dict(name=c["name"], struct=st, t=None, ctype=c["type"]["qualType"], kind="struct"))
@@ -2335,6 +2406,8 @@ class Fn:
                     t = self.ctype(c["type"])
                     self.cparams.append(dict(name=c["name"], struct=None, t=t, ctype=c["type"]["qualType"], kind="scalar"))
                     env[c["name"]] = (ident(c["name"]), t)
+        if self.cfg["stage"] == 3:
+            self.late_fieldbase()
         if a.get("variadic"):
             raise Untranslatable("variadic function")
         rt = a["type"]["qualType"].split("(")[0].strip()
@@ -2425,12 +2498,22 @@ class Fn:
                 self.lean_params.append((ident(p["name"]), p["elem"], ("cell", i)))
             elif p["kind"] == "end":
                 self.lean_params.append((ident(p["name"]), p["t"], ("end", i)))
+            elif p["kind"] == "struct3":
+                self.lean_params += self.struct_lean_params3(i, p)
+            elif p["kind"] == "dropped":
+                pass
             else:
                 # the access paths of one pointer parameter in alphabetical order: the Lean signature then does not
                 # depend on the order in which the C expression happens to mention the fields
                 for path, t in sorted(self.all_paths, key=lambda pt: pt[0]):
                     if path[0] == p["name"]:
                         self.lean_params.append((ident("_".join(path)), t, ("path", i, path[1:])))
+        if self.cfg["stage"] == 3:                          # stage 3: indeterminate local arrays handed to callees
+            for gn, (gt_, gdims) in self.find_ghost_arrays(body):
+                self.ghosts[gn] = (gt_, gdims)
+                self.arrays[gn + "_indet"] = ARR(gt_, gdims, writable=False, kind="ghost")
+                self.ro_arrays.append(gn + "_indet")        # handed unchanged to every helper definition
+                self.lean_params.append((ident(gn + "_indet"), self.arrays[gn + "_indet"], ("ghost", gn)))
         names = [p for p, _, _ in self.lean_params]
         if len(set(names)) != len(names):
             raise Untranslatable("parameter / access-path names collide: " + " ".join(names))
@@ -2438,6 +2521,9 @@ class Fn:
         self.out_desc = []
         for key in self.outs:
             nm = key[1:]
+            if self.cfg["stage"] == 3 and self.out_desc3(key) is not None:
+                self.out_desc.append(self.out_desc3(key))
+                continue
             idx = [i for i, p in enumerate(self.cparams) if p["name"] == nm and p["kind"] in ("array", "cell")]
             if idx:
                 origin = ("array" if key[0] == "@" else "cell", idx[0])
@@ -2464,6 +2550,1363 @@ class Fn:
                  f"/-- no undefined behaviour is reached by `{self.cfg['cname']}` on these arguments -/\n"
                  f"def {self.name}_defined {ps}: Bool :=\n  {D}\n")
         return text
+
+
+# ==================================================================================================== stage 3
+# ---- BEGIN stage 3 (cfun3): functions that read and write a struct through a pointer (notes/NOTES_cfun3.md)
+#
+# A struct type is a generated Lean `structure` with exactly the fields the translated functions touch; a pointer-to-
+# struct parameter `p` is a Lean parameter of that type and (unless `const`) a component of the result.  Inside a
+# function every leaf field `p->a.b` is a state variable of its own (env key `%p.a.b`; array fields `@p.a.b`), so that
+# loops, ifs and helper definitions treat fields exactly like locals; the struct is re-assembled where it leaves the
+# function (return, call of another translated function).  A pointer field is a `Nat` offset into ONE array that
+# travels separately (an implicit array parameter `p_f`, or the array parameter named by `fieldbase`).
+
+class PF:
+    """type of a pointer FIELD of a struct: pointee integer type, constness of the pointee"""
+    is_bool, signed, w = False, False, 64
+
+    def __init__(self, elem, const):
+        self.elem, self.const = elem, const
+
+    def lean(self):
+        return "Nat"
+
+    def __eq__(self, o):
+        return isinstance(o, PF) and self.elem == o.elem and self.const == o.const
+
+
+class AF:
+    """type of a fixed-size integer array FIELD of a struct"""
+    is_bool, signed = False, False
+
+    def __init__(self, elem, dims):
+        self.elem, self.dims = elem, dims
+
+    def total(self):
+        n = 1
+        for d_ in self.dims:
+            n *= d_
+        return n
+
+    def lean(self):
+        return "List UInt8" if self.elem.w == 8 else f"List (BitVec {self.elem.w})"
+
+    def __eq__(self, o):
+        return isinstance(o, AF) and self.elem == o.elem and self.dims == o.dims
+
+
+class STRUCT:
+    """a C struct type seen through the fields the translated functions touch: `fields` = [(name, T | PF | AF | STRUCT)]
+    in record-layout order"""
+    is_bool, signed = False, False
+
+    def __init__(self, name):
+        self.name, self.fields, self.emitted, self.order = name, [], False, None
+
+    def lean(self):
+        return self.name
+
+    def __eq__(self, o):
+        return isinstance(o, STRUCT) and self.name == o.name
+
+    def field(self, f):
+        for n_, t_ in self.fields:
+            if n_ == f:
+                return t_
+        return None
+
+    def leaves(self, prefix=()):
+        """[(path tuple, T | PF | AF)] of the leaf fields, depth first in field order"""
+        out = []
+        for n_, t_ in self.fields:
+            if isinstance(t_, STRUCT):
+                out += t_.leaves(prefix + (n_,))
+            else:
+                out.append((prefix + (n_,), t_))
+        return out
+
+    def nleaves(self):
+        return sum(t_.total() if isinstance(t_, AF) else 1 for _, t_ in self.leaves())
+
+
+STRUCTS = {}           # C spelling of the struct type (typedef name) -> STRUCT
+# fields that are deliberately not modelled (stores to them and statements that only serve them are skipped)
+STRUCT_OPAQUE = {"thrift_decoder_t": {"error_message"}, "syn_outer_t": {"label"}}
+
+
+def struct_name_of(tj, pointer, fn=None):
+    """C spelling of the struct type `tj` denotes (`pointer`: tj is a pointer to it), or None.  clang does not desugar
+    a pointer to a typedef name, so for pointers the test is the one of stage 1 (`Fn.struct_ptr`): the pointee is not an
+    integer type, an enum or void"""
+    q = strip_quals(tj.get("qualType", ""))
+    if pointer:
+        if not q.endswith("*") or q.count("*") != 1 or "(" in q or "[" in q:
+            return None
+        base = q[:-1].strip()
+        if base in BASE or base.startswith("enum ") or base == "void":
+            return None
+        if fn is not None and fn.ptr_view(tj) is not None:
+            return None
+        return re.sub(r"\W+", "_", base)
+    if "*" in q or "[" in q or "(" in q:
+        return None
+    d = strip_quals(tj.get("desugaredQualType", q))
+    if not d.startswith("struct "):
+        return None
+    return re.sub(r"\W+", "_", q)
+
+
+def strip_lv(n):
+    while n.get("kind") == "ParenExpr" or (n.get("kind") in ("ImplicitCastExpr", "CStyleCastExpr") and
+                                           n.get("castKind") in ("LValueToRValue", "NoOp")):
+        n = n["inner"][0]
+    return n
+
+
+def member_chain(n):
+    """`p->a.b` (p a parameter): ("p", [MemberExpr nodes outermost-last]) else None"""
+    nodes = []
+    while True:
+        n = strip_lv(n) if nodes else n
+        if n.get("kind") == "ParenExpr":
+            n = n["inner"][0]
+            continue
+        if n.get("kind") != "MemberExpr":
+            break
+        nodes.append(n)
+        base = strip_lv(n["inner"][0])
+        if n.get("isArrow"):
+            if base.get("kind") == "DeclRefExpr" and base["referencedDecl"].get("kind") == "ParmVarDecl":
+                return base["referencedDecl"]["name"], list(reversed(nodes))
+            return None
+        n = base
+    return None
+
+
+def discover_structs(cfgs, asts, units):
+    """first pass over ALL functions of FUNCS: which fields of which struct types are touched (stage 1/2 callees count:
+    a stage-3 caller must be able to hand them the fields they read)"""
+    touched = {}                                            # struct name -> {field: type json}
+    params = {}                                             # struct name -> a type json of a pointer to it
+
+    def classify(fn, tj):
+        sn = struct_name_of(tj, False)
+        if sn is not None:
+            STRUCT_TYPES.setdefault(sn, tj)
+            return STRUCTS.setdefault(sn, STRUCT(sn))
+        pv = fn.ptr_view(tj)
+        if pv is not None:
+            q = tj.get("desugaredQualType", tj["qualType"])
+            return PF(T(8, False) if pv == "void" else pv, re.search(r"\bconst\b[^*]*\*", q) is not None)
+        at = fn.arr_type_of(tj)
+        if at is not None:
+            return AF(at[0], at[1])
+        try:
+            return fn.ctype(tj)
+        except Untranslatable:
+            return None
+
+    for cfg in cfgs:
+        a = asts[cfg["lean"]]
+        fn = Fn(cfg, a, units[cfg["file"]])
+        ptypes = {}
+        for c in a.get("inner", []):
+            if c.get("kind") == "ParmVarDecl" and "name" in c:
+                sn = struct_name_of(c["type"], True, fn)
+                if sn is not None:
+                    ptypes[c["name"]] = sn
+                    STRUCTS.setdefault(sn, STRUCT(sn))
+                    STRUCT_TYPES.setdefault(sn, c["type"])
+                    params.setdefault(sn, c["type"])
+
+        def walk(n):
+            if n.get("kind") == "MemberExpr":
+                ch = member_chain(n)
+                if ch is not None and ch[0] in ptypes:
+                    S = STRUCTS[ptypes[ch[0]]]
+                    for m in ch[1]:
+                        if m["name"] in STRUCT_OPAQUE.get(S.name, ()):
+                            break
+                        ft = classify(fn, m["type"])
+                        old = S.field(m["name"])
+                        if old is None:
+                            S.fields.append((m["name"], ft))
+                        if not isinstance(ft, STRUCT):
+                            break
+                        S = ft
+            for c in n.get("inner", []):
+                if isinstance(c, dict):
+                    walk(c)
+        walk(a)
+    return params
+
+
+def order_struct_fields(S, unit, tj):
+    """sort the touched fields of `S` into record-layout order, asking clang for the RecordDecl (found through the
+    typedef name when the struct is only known by it)"""
+    if S.order is not None:
+        return
+    q = strip_quals(tj.get("qualType", ""))
+    q = q[:-1].strip() if q.endswith("*") else q
+    d = strip_quals(tj.get("desugaredQualType", q))
+    d = d[:-1].strip() if d.endswith("*") else d
+    S.order = []
+    tag = d[len("struct "):].strip() if d.startswith("struct ") else None
+    if tag is None and re.fullmatch(r"\w+", q):
+        out = run_clang(["-fsyntax-only", "-Xclang", "-ast-dump=json", "-Xclang", "-ast-dump-filter=" + q, unit.tu],
+                        "typedef " + q)
+
+        def find_tag(n):
+            if isinstance(n, dict):
+                if n.get("kind") == "RecordDecl" and "name" in n:
+                    return n["name"]
+                dd = n.get("decl")
+                if isinstance(dd, dict) and dd.get("kind") == "RecordDecl" and "name" in dd:
+                    return dd["name"]
+                for v in list(n.get("inner", [])) + [n.get("ownedTagDecl")]:
+                    r = find_tag(v)
+                    if r:
+                        return r
+            return None
+        for doc in json_docs(out):
+            if doc.get("kind") == "TypedefDecl" and doc.get("name") == q:
+                tag = find_tag(doc)
+                if tag:
+                    break
+    if tag:
+        out = run_clang(["-fsyntax-only", "-Xclang", "-ast-dump=json", "-Xclang", "-ast-dump-filter=" + tag, unit.tu],
+                        "record layout of " + tag)
+        for doc in json_docs(out):
+            if doc.get("kind") == "RecordDecl" and doc.get("name") == tag and doc.get("completeDefinition"):
+                S.order = [f_["name"] for f_ in doc.get("inner", []) if f_.get("kind") == "FieldDecl" and "name" in f_]
+                break
+    if not S.order:
+        raise Untranslatable(f"cannot find the record layout of `{S.name}`")
+    pos = {f_: i for i, f_ in enumerate(S.order)}
+    S.fields.sort(key=lambda ft: pos.get(ft[0], len(pos)))
+
+
+def lean_struct_decl(S):
+    """the Lean `structure` of a C struct type, with the flattening used on the line protocol of the self-check"""
+    L = [f"/-- the C struct `{S.name}`, restricted to the fields the translated functions touch (record-layout order); a pointer",
+         "field is the offset into the array it points into (which travels separately), an array field is a list -/",
+         f"structure {S.name} where"]
+    for n_, t_ in S.fields:
+        L.append(f"  {ident(n_)} : {t_.lean()}")
+    L.append("deriving DecidableEq")
+    L.append("")
+    # leaves <-> list of numbers (self-check protocol; pointer fields travel as offsets)
+    items, k = [], 0
+    for n_, t_ in S.fields:
+        f_ = ident(n_)
+        if isinstance(t_, STRUCT):
+            n = t_.nleaves()
+            items.append((f_, f"{t_.name}.ofLeaves (l.drop {k})", f"s.{f_}.toLeaves"))
+        elif isinstance(t_, AF):
+            n = t_.total()
+            conv = "UInt8.ofNat" if t_.elem.w == 8 else f"(BitVec.ofNat {t_.elem.w})"
+            items.append((f_, f"((l.drop {k}).take {n}).map {conv}", f"s.{f_}.map (·.toNat)"))
+        elif isinstance(t_, PF):
+            n = 1
+            items.append((f_, f"l.getD {k} 0", f"[s.{f_}]"))
+        elif t_.is_bool:
+            n = 1
+            items.append((f_, f"decide (l.getD {k} 0 ≠ 0)", f"[if s.{f_} then 1 else 0]"))
+        else:
+            n = 1
+            items.append((f_, f"BitVec.ofNat {t_.w} (l.getD {k} 0)", f"[s.{f_}.toNat]"))
+        k += n
+    L.append(f"/-- `{S.name}` from the list of its {k} leaf values (bit patterns; self-check protocol) -/")
+    L.append(f"def {S.name}.ofLeaves (l : List Nat) : {S.name} :=")
+    L.append("  { " + ",\n    ".join(f"{f_} := {a_}" for f_, a_, _ in items) + " }")
+    L.append(f"def {S.name}.toLeaves (s : {S.name}) : List Nat :=")
+    L.append("  " + " ++ ".join(b_ for _, _, b_ in items))
+    L.append("")
+    return "\n".join(L) + "\n"
+
+
+class Fn3(Fn):
+    """translation of one stage-3 function: everything of stages 1-2 plus struct state"""
+
+    def __init__(self, cfg, ast, unit):
+        Fn.__init__(self, cfg, ast, unit)
+        self.structs3 = {}             # struct pointer parameter -> dict(S=STRUCT, const=bool, index=cparam index)
+        self.leaf_t = {}               # env key of a scalar / pointer leaf -> T | PF
+        self.farray_origin = {}        # implicit array name -> ("farray", cparam index, path tuple)
+        self.field_arrays = {}         # leaf key -> array name the pointer leaf points into
+        self.hoisted = {}              # id of a CallExpr already bound by a `match` -> E of its returned value
+        self.nhoist = 0
+        self.dropped = set(cfg.get("drop_params", ()))
+        self.ghosts = {}               # uninitialised local array handed to a callee -> (elem T, dims): ghost parameter
+
+    # ---- names
+    def lname(self, key):
+        if key[0] == "%":
+            nm = key[1:].replace(".", "_")
+            return ident(nm + ("_off" if isinstance(self.leaf_t.get(key), PF) else ""))
+        if key[0] in "@?" and "." in key:
+            return ident(key[1:].replace(".", "_") + ("_init" if key[0] == "?" else ""))
+        return Fn.lname(self, key)
+
+    def collect_paths(self, n):
+        return                                              # no read-only access paths: struct fields are state
+
+    def fuel_term(self, spec, env):
+        if isinstance(spec, int):
+            return str(spec)
+
+        def sub(m):
+            key = m.group(1)
+            if env.get(key) is None:
+                raise Untranslatable(f"fuel expression `{spec}` mentions `{key}`, which has no value at the loop")
+            return env[key][0]
+        return "(" + re.sub(r"\{([@*%]?[\w.]+)\}", sub, spec) + ")"
+
+    # ---- struct parameters
+    def leaf_key(self, n):
+        """env key and type of the leaf field the MemberExpr `n` denotes: ("%p.a.b" | "@p.a.b", type), else None"""
+        ch = member_chain(n)
+        if ch is None or ch[0] not in self.structs3:
+            return None
+        S = self.structs3[ch[0]]["S"]
+        path = [ch[0]]
+        for m in ch[1]:
+            if m["name"] in STRUCT_OPAQUE.get(S.name, ()):
+                raise Untranslatable(f"field `{m['name']}` of `{S.name}` is declared opaque (not modelled) but is used")
+            ft = S.field(m["name"])
+            if ft is None:
+                raise Untranslatable(f"field `{m['name']}` of `{S.name}` has a type outside the supported subset")
+            path.append(m["name"])
+            if isinstance(ft, STRUCT):
+                S = ft
+                continue
+            if m is not ch[1][-1]:
+                raise Untranslatable("member access below a non-struct field")
+            return ("@" if isinstance(ft, AF) else "%") + ".".join(path), ft
+        return "&" + ".".join(path), S                      # a nested struct as a whole
+
+    def struct_arg(self, n):
+        """a call argument of pointer-to-struct type: `p` or `&p->a`: (dotted prefix, STRUCT, const)"""
+        n = strip_lv(n)
+        if n.get("kind") == "DeclRefExpr" and n["referencedDecl"].get("name") in self.structs3:
+            nm = n["referencedDecl"]["name"]
+            return nm, self.structs3[nm]["S"], self.structs3[nm]["const"]
+        if n.get("kind") == "UnaryOperator" and n.get("opcode") == "&":
+            lk = self.leaf_key(n["inner"][0])
+            if lk is not None and lk[0][0] == "&":
+                root = lk[0][1:].split(".")[0]
+                return lk[0][1:], lk[1], self.structs3[root]["const"]
+        raise Untranslatable("a struct pointer passed to a callee must be a struct parameter or `&p->field`")
+
+    def mkstruct(self, prefix, S, env):
+        """the Lean term of the struct at `prefix`, assembled from the current values of its leaves"""
+        parts = []
+        for n_, t_ in S.fields:
+            path = prefix + "." + n_
+            if isinstance(t_, STRUCT):
+                v = self.mkstruct(path, t_, env)
+            else:
+                ent = env.get(("@" if isinstance(t_, AF) else "%") + path)
+                if ent is None:
+                    raise Untranslatable(f"field `{path}` has no value where the struct is passed on / returned "
+                                         f"(a pointer field under `fieldbase` must be assigned first)")
+                v = ent[0]
+            parts.append((ident(n_), v))
+        whole = {v[: -len("." + f_)] for f_, v in parts if v.endswith("." + f_) and self.atomic(v)}
+        if len(whole) == 1 and self.atomic(next(iter(whole))):
+            x = next(iter(whole))
+            changed = [(f_, v) for f_, v in parts if v != x + "." + f_]
+            if not changed:
+                return x                                    # every field is still the projection of one struct value
+            if len(changed) < len(parts):
+                return "{ " + x + " with " + ", ".join(f"{f_} := {v}" for f_, v in changed) + " }"
+        return "{ " + ", ".join(f"{f_} := {v}" for f_, v in parts) + f" : {S.name} }}"
+
+    def bind_struct(self, env, prefix, S, term, bases=None):
+        """the environment after the struct at `prefix` has become the Lean value `term` (result of a callee)"""
+        for path, t_ in S.leaves():
+            dotted = prefix + "." + ".".join(path)
+            proj = term + "." + ".".join(ident(x) for x in path)
+            if isinstance(t_, AF):
+                env["@" + dotted] = (proj, self.arrays[dotted])
+            elif isinstance(t_, PF):
+                key = "%" + dotted
+                base = (bases or {}).get(path) or self.field_arrays.get(key)
+                if base is None:
+                    env[key] = (proj, PTR("?" + dotted, t_.elem, 1))     # never dereferenced in this function
+                else:
+                    if self.field_arrays.get(key) not in (None, base):
+                        raise Untranslatable(f"pointer field `{dotted}` is made to point into another array by a callee")
+                    env[key] = (proj, PTR(base, t_.elem, 1))
+            else:
+                env["%" + dotted] = (proj, t_)
+        return env
+
+    def needed_field_arrays(self, body, pname, S):
+        """paths of the pointer fields of struct parameter `pname` that this function (or a callee) dereferences"""
+        need = set()
+
+        def walk(n, parent_is_assign_lhs):
+            k = n.get("kind")
+            if k == "MemberExpr":
+                ch = member_chain(n)
+                if ch is not None and ch[0] == pname and not parent_is_assign_lhs:
+                    try:
+                        lk = self.leaf_key(n)
+                    except Untranslatable:
+                        lk = None
+                    if lk is not None and isinstance(lk[1], PF):
+                        need.add(tuple(lk[0][1:].split(".")[1:]))
+                return
+            if k == "CallExpr":
+                try:
+                    c_ = self.callee_of(n)
+                except Untranslatable:
+                    c_ = None
+                if isinstance(c_, dict):
+                    for i, cp in enumerate(c_["cparams"]):
+                        if cp.get("kind") == "struct3" and 1 + i < len(n["inner"]):
+                            try:
+                                prefix, _, _ = self.struct_arg(n["inner"][1 + i])
+                            except Untranslatable:
+                                continue
+                            pre = prefix.split(".")
+                            if pre[0] != pname:
+                                continue
+                            for fa in cp["farrays"]:
+                                need.add(tuple(pre[1:]) + tuple(fa["path"]))
+            inner = n.get("inner", [])
+            for j, c in enumerate(inner):
+                if isinstance(c, dict):
+                    lhs = (k == "BinaryOperator" and n.get("opcode") == "=" and j == 0)
+                    walk(c, lhs)
+        walk(body, False)
+        return need
+
+    def struct_param3(self, c, sname, env, outs_params, body):
+        """a pointer-to-struct parameter of a stage-3 function"""
+        nm = c["name"]
+        S = STRUCTS.get(sname)
+        if S is None or not S.fields:
+            raise Untranslatable(f"struct `{sname}`: no supported field is touched by the translated functions")
+        q = c["type"].get("desugaredQualType", c["type"]["qualType"])
+        const = re.search(r"\bconst\b[^*]*\*", q) is not None
+        idx = len(self.cparams)
+        self.structs3[nm] = dict(S=S, const=const, index=idx)
+        order_struct_fields_rec(S, self.unit, c["type"])
+        need = self.needed_field_arrays(body, nm, S)
+        farrays, fieldbase = [], {}
+        for path, t_ in S.leaves():
+            dotted = nm + "." + ".".join(path)
+            proj = ident(nm) + "." + ".".join(ident(x) for x in path)
+            if isinstance(t_, AF):
+                A = ARR(t_.elem, t_.dims, writable=not const, kind="field")
+                self.arrays[dotted] = A
+                env["@" + dotted] = (proj, A)
+            elif isinstance(t_, PF):
+                key = "%" + dotted
+                self.leaf_t[key] = t_
+                fb = self.cfg.get("fieldbase", {}).get(dotted)
+                if fb is not None:
+                    fieldbase[path] = fb
+                    self.field_arrays[key] = fb
+                    env[key] = None                          # must be assigned (from the array parameter) before use
+                elif path in need:
+                    aname = dotted.replace(".", "_")
+                    A = ARR(t_.elem, None, writable=not t_.const and not const, kind="param")
+                    self.arrays[aname] = A
+                    self.field_arrays[key] = aname
+                    env["@" + aname] = (ident(aname), A)
+                    env[key] = (proj, PTR(aname, t_.elem, 1))
+                    if A.writable:
+                        pass
+                    else:
+                        self.ro_arrays.append(aname)
+                    self.farray_origin[aname] = ("farray", idx, path)
+                    farrays.append(dict(path=path, name=aname, A=A))
+                else:
+                    env[key] = (proj, PTR("?" + dotted, t_.elem, 1))
+            else:
+                self.leaf_t["%" + dotted] = t_
+                env["%" + dotted] = (proj, t_)
+        if not const:
+            outs_params.append("&" + nm)
+        for fa in farrays:
+            if fa["A"].writable:
+                outs_params.append("@" + fa["name"])
+        cstruct = strip_quals(c["type"]["qualType"])
+        cstruct = cstruct[:-1].strip() if cstruct.endswith("*") else cstruct
+        self.cparams.append(dict(name=nm, struct=sname, t=None, ctype=c["type"]["qualType"], kind="struct3", S=S,
+                                 const=const, farrays=farrays, fieldbase=fieldbase, cstruct=cstruct))
+
+    def late_fieldbase(self):
+        """`fieldbase` names an array parameter that may come after the struct parameter: resolve after all parameters"""
+        for p in self.cparams:
+            if p.get("kind") != "struct3":
+                continue
+            for path, fb in list(p["fieldbase"].items()):
+                if fb not in self.arrays:
+                    raise Untranslatable(f"fieldbase: `{fb}` is not an array parameter")
+                j = [i for i, q in enumerate(self.cparams) if q["name"] == fb and q.get("kind") == "array"]
+                if not j:
+                    raise Untranslatable(f"fieldbase: `{fb}` is not an array parameter")
+                p["fieldbase"][path] = j[0]
+
+    def struct_lean_params3(self, i, p):
+        out = [(ident(p["name"]), p["S"], ("struct3", i))]
+        for fa in p["farrays"]:
+            out.append((ident(fa["name"]), fa["A"], ("farray", i, fa["path"])))
+        return out
+
+    # ---- result
+    def key_type(self, key):
+        if key[0] == "&":
+            return self.structs3[key[1:]]["S"]
+        if key[0] == "@" and key[1:] in self.arrays:
+            return self.arrays[key[1:]]
+        return Fn.key_type(self, key)
+
+    def mkret(self, e, env):
+        comps = [] if self.ret is None else [e.v]
+        for key in self.outs:
+            if key[0] == "&":
+                comps.append(self.mkstruct(key[1:], self.structs3[key[1:]]["S"], env))
+                continue
+            if env.get(key) is None:
+                raise Untranslatable(f"internal: `{key}` has no value at a return")
+            comps.append(env[key][0])
+        if not comps:
+            return "()"
+        return comps[0] if len(comps) == 1 else "(" + ", ".join(comps) + ")"
+
+    def out_desc3(self, key):
+        nm = key[1:]
+        if key[0] == "&":
+            return dict(name=nm, t=self.structs3[nm]["S"], origin=("struct3", self.structs3[nm]["index"]))
+        if nm in self.farray_origin:
+            return dict(name=nm, t=self.arrays[nm], origin=self.farray_origin[nm])
+        return None
+
+    # ---- expressions
+    def expr(self, n, env):
+        k = n.get("kind")
+        if k == "CallExpr" and n.get("id") in self.hoisted:
+            return self.hoisted[n["id"]]
+        if k == "MemberExpr":
+            lk = self.leaf_key(n)
+            if lk is None:
+                raise Untranslatable("`->` on something that is not a struct parameter")
+            key, ft = lk
+            if key[0] != "%" or isinstance(ft, PF):
+                raise Untranslatable(f"field `{key[1:]}` used as an integer value")
+            ent = env.get(key)
+            if ent is None:
+                raise Untranslatable(f"field `{key[1:]}` is read before it is assigned")
+            return E(ent[0], ent[1])
+        return Fn.expr(self, n, env)
+
+    def pexpr(self, n, env):
+        if n.get("kind") == "MemberExpr":
+            lk = self.leaf_key(n)
+            if lk is None or not isinstance(lk[1], PF):
+                raise Untranslatable("member used as a pointer is not a pointer field of a struct parameter")
+            ent = env.get(lk[0])
+            if ent is None:
+                raise Untranslatable(f"pointer field `{lk[0][1:]}` is read before it is assigned")
+            if ent[1].base.startswith("?"):
+                raise Untranslatable(f"internal: pointer field `{lk[0][1:]}` is dereferenced but has no array")
+            return E(ent[0], ent[1])
+        return Fn.pexpr(self, n, env)
+
+    def arrloc(self, a, env):
+        if a.get("kind") == "MemberExpr":
+            lk = self.leaf_key(a)
+            if lk is None or not isinstance(lk[1], AF):
+                raise Untranslatable("member used as an array is not an array field of a struct parameter")
+            return lk[0][1:], "0", list(lk[1].dims), lk[1].elem, []
+        return Fn.arrloc(self, a, env)
+
+    def lvalue(self, n, env):
+        if n.get("kind") == "MemberExpr":
+            lk = self.leaf_key(n)
+            if lk is None or lk[0][0] != "%" or isinstance(lk[1], PF):
+                raise Untranslatable("member lvalue that is not an integer field of a struct parameter")
+            return dict(kind="cell", key=lk[0], t=lk[1])
+        return Fn.lvalue(self, n, env)
+
+    def field_writable(self, key):
+        root = key[1:].split(".")[0]
+        return not self.structs3[root]["const"]
+
+    def write_loc(self, loc, e, env):
+        if loc["kind"] == "cell" and loc["key"][0] == "%":
+            if not e.t == loc["t"]:
+                raise Untranslatable(f"value of type {e.t!r} stored into a field of type {loc['t']!r}")
+            if not self.field_writable(loc["key"]):
+                raise Untranslatable(f"store through a pointer to const struct (`{loc['key'][1:]}`)")
+            env = dict(env)
+            env[loc["key"]] = (self.spill(e.v, e.t), e.t)
+            return env, list(e.d)
+        return Fn.write_loc(self, loc, e, env)
+
+    def incdec(self, n, env):
+        tgt = n["inner"][0]
+        while tgt.get("kind") == "ParenExpr":
+            tgt = tgt["inner"][0]
+        if tgt.get("kind") != "MemberExpr":
+            return Fn.incdec(self, n, env)
+        lk = self.leaf_key(tgt)
+        if lk is None or lk[0][0] != "%":
+            raise Untranslatable("++/-- on a member that is not a scalar field of a struct parameter")
+        key, t = lk
+        if env.get(key) is None:
+            raise Untranslatable(f"++/-- on field `{key[1:]}`, which has no value")
+        if not self.field_writable(key):
+            raise Untranslatable(f"++/-- through a pointer to const struct (`{key[1:]}`)")
+        if any(q[0] == key for q in self.pending):
+            raise Untranslatable(f"`{key[1:]}` is modified twice in one expression")
+        v, vt = env[key]
+        up = n["opcode"] == "++"
+        d = []
+        if isinstance(vt, PTR):
+            new, d = self.padd(v, E("1", BASE["int"], lit=1), vt.scale, 1 if up else -1)
+        else:
+            if vt.is_bool:
+                raise Untranslatable("++/-- on _Bool")
+            if vt.signed and vt.w >= 32:
+                d.append(f"({self.CS}{'sAddOk' if up else 'sSubOk'} {v} 1#{vt.w})")
+            new = f"({v} {'+' if up else '-'} 1#{vt.w})"
+        self.pending.append((key, new, vt))
+        return E(v if n.get("isPostfix") else new, vt, d)
+
+    def count_refs(self, n, name):
+        if name[0] != "%":
+            return Fn.count_refs(self, n, name)
+        c = 0
+        if n.get("kind") == "MemberExpr":
+            try:
+                lk = self.leaf_key(n)
+            except Untranslatable:
+                lk = None
+            if lk is not None:
+                return 1 if lk[0] == name else 0
+        if n.get("kind") == "CallExpr":
+            # a callee that receives the struct may read / write the field
+            for a in n.get("inner", [])[1:]:
+                try:
+                    prefix, _, _ = self.struct_arg(a)
+                except Untranslatable:
+                    continue
+                if name[1:] == prefix or name[1:].startswith(prefix + "."):
+                    c += 1
+        for ch in n.get("inner", []):
+            if isinstance(ch, dict):
+                c += self.count_refs(ch, name)
+        return c
+
+    # ---- statements on fields
+    def assign0(self, s, env):
+        k = s.get("kind")
+        if k in ("BinaryOperator", "CompoundAssignOperator", "UnaryOperator") and s.get("inner"):
+            lhs = s["inner"][0]
+            while lhs.get("kind") == "ParenExpr":
+                lhs = lhs["inner"][0]
+            if lhs.get("kind") == "MemberExpr" and (k != "BinaryOperator" or s["opcode"] == "=") and \
+                    (k != "UnaryOperator" or s["opcode"] in ("++", "--")):
+                lk = self.leaf_key(lhs)
+                if lk is None:
+                    raise Untranslatable("assignment through `->` on something that is not a struct parameter")
+                if isinstance(lk[1], PF):
+                    return self.assign_ptr_field(s, lk[0], lk[1], env)
+                if lk[0][0] != "%":
+                    raise Untranslatable(f"assignment to the whole of `{lk[0][1:]}`")
+                return self.store(s, lhs, env)
+        if k == "CallExpr":
+            f = s["inner"][0]
+            while f.get("kind") in ("ImplicitCastExpr", "ParenExpr"):
+                f = f["inner"][0]
+            if f.get("kind") == "DeclRefExpr" and f["referencedDecl"].get("name") in ("memcpy", "__builtin_memcpy"):
+                return self.memcpy3(s, env)
+            if f.get("kind") == "DeclRefExpr" and f["referencedDecl"].get("name") in ("memset", "__builtin_memset"):
+                a0 = strip_lv(s["inner"][1]) if len(s["inner"]) > 1 else {}
+                while a0.get("kind") in ("ImplicitCastExpr", "CStyleCastExpr", "ParenExpr"):
+                    a0 = a0["inner"][0]
+                if a0.get("kind") == "DeclRefExpr" and a0["referencedDecl"].get("name") in self.structs3 and len(s["inner"]) == 4:
+                    return self.memset_struct3(s, env, a0["referencedDecl"]["name"])
+                return self.memset3(s, env)
+        return Fn.assign0(self, s, env)
+
+    def assign_ptr_field(self, s, key, ft, env):
+        """`p->f = q + k`, `p->f += k`, `p->f++` on a pointer field"""
+        if not self.field_writable(key):
+            raise Untranslatable(f"store through a pointer to const struct (`{key[1:]}`)")
+        k = s.get("kind")
+        cur = env.get(key)
+        base = self.field_arrays.get(key)
+        if k == "BinaryOperator" and s["opcode"] == "=":
+            pe = self.review(self.pexpr(s["inner"][1], env), ft.elem)
+            if base is None or pe.t.base != base:
+                raise Untranslatable(f"pointer field `{key[1:]}` is made to point into `{pe.t.base}`: declare "
+                                     f"fieldbase={{\"{key[1:]}\": \"{pe.t.base}\"}} for this function")
+            env = dict(env)
+            env[key] = (pe.v, pe.t)
+            return env, pe.d
+        if cur is None:
+            raise Untranslatable(f"pointer field `{key[1:]}` is used before it is assigned")
+        v, t = cur
+        if k == "CompoundAssignOperator" and s["opcode"] in ("+=", "-="):
+            ie = self.expr(s["inner"][1], env)
+            off, d = self.padd(v, ie, t.scale, 1 if s["opcode"] == "+=" else -1)
+            env = dict(env)
+            env[key] = (off, t)
+            return env, ie.d + d
+        if k == "UnaryOperator" and s["opcode"] in ("++", "--"):
+            off, d = self.padd(v, E("1", BASE["int"], lit=1), t.scale, 1 if s["opcode"] == "++" else -1)
+            env = dict(env)
+            env[key] = (off, t)
+            return env, d
+        raise Untranslatable(f"operation on pointer field `{key[1:]}`")
+
+    # ---- memcpy with a run-time length (item 3 of the stage-3 brief)
+    def memcpy3(self, n, env):
+        """`memcpy(dst + off, src + off2, n)` between two modelled byte arrays (run-time n, non-overlapping: two
+        different arrays), `memcpy(&local, p, n)` with run-time `n <= sizeof local` into an integer local (little-endian
+        partial load: the low n bytes are replaced); the constant-size forms of stage 2 go to `memcpy_stmt`"""
+        args = n["inner"][1:]
+        if len(args) != 3:
+            raise Untranslatable("memcpy with other than three arguments")
+        if self.const_size(args[2], env) is not None:
+            try:
+                snap = self.snapshot()
+                return Fn.memcpy_stmt(self, n, env)
+            except Untranslatable:
+                self.restore(snap)
+        ne = self.expr(args[2], env)
+        if ne.t.is_bool:
+            raise Untranslatable("memcpy whose length is a _Bool")
+        nn = (str(ne.lit) if ne.lit is not None and ne.lit >= 0 else
+              (f"{ne.v}.toNat" if not ne.t.signed else f"{ne.v}.toInt.toNat"))
+        dn = list(ne.d) + ([f"(!{ne.v}.msb)"] if ne.t.signed and ne.lit is None else [])
+        dst = args[0]
+        while dst.get("kind") in ("ParenExpr", "ImplicitCastExpr", "CStyleCastExpr"):
+            if dst.get("kind") != "ParenExpr" and dst.get("castKind") not in ("BitCast", "NoOp"):
+                break
+            dst = dst["inner"][0]
+        pe_s = self.pexpr(args[1], env)
+        As = self.arrays[pe_s.t.base]
+        if As.elem.w != 8 or pe_s.t.scale != 1:
+            raise Untranslatable("memcpy from an array that is not a byte array")
+        if "?" + pe_s.t.base in env:
+            raise Untranslatable("memcpy from a local array that may be uninitialised")
+        a_s = self.arr_term(pe_s.t.base, env)
+        if dst.get("kind") == "UnaryOperator" and dst.get("opcode") == "&":
+            tgt = dst["inner"][0]
+            while tgt.get("kind") == "ParenExpr":
+                tgt = tgt["inner"][0]
+            if tgt.get("kind") != "DeclRefExpr" or tgt["referencedDecl"].get("name") not in env:
+                raise Untranslatable("memcpy whose destination is not the address of a scalar local")
+            nm = tgt["referencedDecl"]["name"]
+            t = self.local_types.get(nm) or (env[nm][1] if env[nm] else None)
+            if not isinstance(t, T) or t.is_bool:
+                raise Untranslatable(f"memcpy into `{nm}`, which is not an integer local")
+            if env.get(nm) is None:
+                raise Untranslatable(f"memcpy of a run-time length into `{nm}`, which is unassigned (its other bytes "
+                                     f"would be indeterminate)")
+            v = f"({self.CS}ldPartLE {env[nm][0]} {a_s} {pe_s.v} {nn})"
+            d = pe_s.d + dn + [f"(decide ({nn} ≤ {t.w // 8}))", f"({self.CS}inb {a_s} {pe_s.v} {nn})"]
+            return self.bind(env, nm, E(v, t), t), d
+        pe_d = self.pexpr(args[0], env)
+        Ad = self.arrays[pe_d.t.base]
+        if Ad.elem.w != 8 or pe_d.t.scale != 1 or not Ad.writable:
+            raise Untranslatable("memcpy into an array that is not a writable byte array")
+        if pe_d.t.base == pe_s.t.base:
+            raise Untranslatable("memcpy within one array (possible overlap)")
+        a_d = self.arr_term(pe_d.t.base, env)
+        loc = dict(kind="mem", base=pe_d.t.base, off=pe_d.v, t=Ad.elem, scale=1, d=[], static=False, cast=False)
+        if Ad.dims is not None:
+            db = [f"(decide ({self.nat_add(pe_d.v, nn)} ≤ {Ad.total()}))"]
+        else:
+            db = [f"({self.CS}inb {a_d} {pe_d.v} {nn})"]
+        env = dict(env)
+        env["@" + pe_d.t.base] = (f"({self.CS}copyInto {a_d} {pe_d.v} {a_s} {pe_s.v} {nn})", Ad)
+        init = env.get("?" + pe_d.t.base)
+        if init is not None:
+            env["?" + pe_d.t.base] = (f"({self.CS}fill {init[0]} {pe_d.v} {nn} true)", init[1])
+        return env, pe_d.d + pe_s.d + dn + db + [f"({self.CS}inb {a_s} {pe_s.v} {nn})"]
+
+    def memset_struct3(self, n, env, pname):
+        """`memset(p, 0, sizeof(*p))` on a struct parameter: every integer field 0, every `bool` false, every array field
+        zero-filled; a pointer field becomes NULL, i.e. it has no value until the function assigns it"""
+        args = n["inner"][1:]
+        info = self.structs3[pname]
+        if info["const"]:
+            raise Untranslatable("memset through a pointer to const struct")
+        val = self.expr(args[1], env)
+        sz = args[2]
+        while sz.get("kind") in ("ParenExpr", "ImplicitCastExpr", "CStyleCastExpr"):
+            sz = sz["inner"][0]
+        whole = False
+        if sz.get("kind") == "UnaryExprOrTypeTraitExpr" and sz.get("name") == "sizeof":
+            if "argType" in sz:
+                whole = strip_quals(sz["argType"]["qualType"]) == self.cparams[info["index"]]["cstruct"]
+            else:
+                x = sz["inner"][0]
+                while x.get("kind") == "ParenExpr":
+                    x = x["inner"][0]
+                if x.get("kind") == "UnaryOperator" and x.get("opcode") == "*":
+                    y = strip_lv(x["inner"][0])
+                    whole = y.get("kind") == "DeclRefExpr" and y["referencedDecl"].get("name") == pname
+        if val.lit != 0 or not whole:
+            raise Untranslatable(f"memset of struct `{pname}` that is not `memset({pname}, 0, sizeof(*{pname}))`")
+        env = dict(env)
+        for path, t_ in info["S"].leaves():
+            dotted = pname + "." + ".".join(path)
+            if isinstance(t_, AF):
+                zero = "0" if t_.elem.w == 8 else f"0#{t_.elem.w}"
+                env["@" + dotted] = (f"(List.replicate {t_.total()} {zero})", self.arrays[dotted])
+            elif isinstance(t_, PF):
+                env["%" + dotted] = None
+            elif t_.is_bool:
+                env["%" + dotted] = ("false", t_)
+            else:
+                env["%" + dotted] = (f"0#{t_.w}", t_)
+        return env, []
+
+    def memset3(self, n, env):
+        """`memset(p, c, n)` with a run-time `n` on a writable array (c a byte literal, 0 for wider elements): `n` must be
+        a multiple of the element size"""
+        args = n["inner"][1:]
+        if len(args) != 3:
+            raise Untranslatable("memset with other than three arguments")
+        if self.const_size(args[2], env) is not None:
+            return Fn.memset_stmt(self, n, env)
+        pe = self.pexpr(args[0], env)
+        val, ne = self.expr(args[1], env), self.expr(args[2], env)
+        A = self.arrays[pe.t.base]
+        eb = A.elem.w // 8
+        if not A.writable or pe.t.scale != 1:
+            raise Untranslatable("memset of a read-only array / through a widening view")
+        if val.lit is None or (val.lit != 0 and eb != 1) or not (0 <= val.lit < 256):
+            raise Untranslatable("memset with a value other than a byte literal (0 for wider elements)")
+        if ne.t.is_bool or ne.t.signed:
+            raise Untranslatable("memset whose length is not an unsigned integer")
+        cnt = f"{ne.v}.toNat" if eb == 1 else f"({ne.v}.toNat / {eb})"
+        d = pe.d + ne.d + ([] if eb == 1 else [f"({ne.v}.toNat % {eb} == 0)"])
+        a = self.arr_term(pe.t.base, env)
+        if A.dims is not None:
+            d.append(f"(decide ({self.nat_add(pe.v, cnt)} ≤ {A.total()}))")
+        else:
+            d.append(f"({self.CS}inb {a} {pe.v} {cnt})")
+        env = dict(env)
+        env["@" + pe.t.base] = (f"({self.CS}fill {a} {pe.v} {cnt} {val.lit if eb == 1 else f'{val.lit}#{A.elem.w}'})", A)
+        init = env.get("?" + pe.t.base)
+        if init is not None:
+            env["?" + pe.t.base] = (f"({self.CS}fill {init[0]} {pe.v} {cnt} true)", init[1])
+        return env, d
+
+    def find_ghost_arrays(self, body):
+        """uninitialised local arrays whose address is handed to a translated callee: their content before the call is
+        indeterminate but, the address being taken, reading it is not undefined - it is modelled as an extra (ghost)
+        parameter `<name>_indet` of the Lean function, over which the link theorems quantify"""
+        decls, passed = {}, set()
+
+        def walk(n, in_call):
+            k = n.get("kind")
+            if k == "VarDecl" and "init" not in n and self.arr_type_of(n.get("type", {})) is not None:
+                decls[n["name"]] = self.arr_type_of(n["type"])
+            if k == "CallExpr":
+                try:
+                    c_ = self.callee_of(n)
+                except Untranslatable:
+                    c_ = None
+                in_call = in_call or isinstance(c_, dict)
+            if k == "DeclRefExpr" and in_call and n.get("referencedDecl", {}).get("kind") == "VarDecl":
+                passed.add(n["referencedDecl"]["name"])
+            for c in n.get("inner", []):
+                if isinstance(c, dict):
+                    walk(c, in_call)
+        walk(body, False)
+        return [(nm, decls[nm]) for nm in decls if nm in passed]
+
+    def local_array(self, v, at, env):
+        nm = v["name"]
+        if nm in self.ghosts and "init" not in v:
+            t, dims = at
+            A = ARR(t, dims, writable=True, kind="local")
+            self.arrays[nm] = A
+            env = dict(env)
+            env["@" + nm] = (ident(nm + "_indet"), A)
+            return env, [f"({ident(nm + '_indet')}.length == {A.total()})"]
+        return Fn.local_array(self, v, at, env)
+
+    # ---- calls
+    def callee_struct_prefix(self, callee, i, arg):
+        prefix, S, const = self.struct_arg(arg)
+        cp = callee["cparams"][i]
+        if S.name != cp["struct"]:
+            raise Untranslatable(f"call to {callee['cname']}: argument {i} is a `{S.name}`, not a `{cp['struct']}`")
+        return prefix, S, const
+
+    def call_parts(self, n, env):
+        """as `Fn.call_parts`, plus struct arguments (handed to stage-1 callees path by path, to stage-3 callees as a
+        whole with the arrays their pointer fields point into), dropped parameters, uninitialised `&local` cells"""
+        callee = self.callee_of(n)
+        args = n["inner"][1:]
+        if isinstance(callee, str):
+            raise Untranslatable("builtin in statement position")
+        if len(args) != len(callee["cparams"]):
+            raise Untranslatable(f"call to {callee['cname']}: wrong number of arguments")
+        d, actual, dests = [], [], {}
+        scalar, prefixes = {}, {}
+        for i, a in enumerate(args):
+            cp = callee["cparams"][i]
+            kind = cp.get("kind", "struct" if cp["struct"] is not None else "scalar")
+            if kind == "end":
+                raise Untranslatable(f"call to {callee['cname']}, which takes a (p, end) pointer pair")
+            if kind == "dropped":
+                x = strip_lv(a)
+                while x.get("kind") in ("ImplicitCastExpr", "CStyleCastExpr", "ParenExpr"):
+                    x = x["inner"][0]
+                if x.get("kind") not in ("StringLiteral", "IntegerLiteral") and not (
+                        x.get("kind") == "DeclRefExpr" and x["referencedDecl"].get("name") in self.dropped):
+                    raise Untranslatable(f"call to {callee['cname']}: argument {i} (an unmodelled parameter) is not a literal")
+            elif kind == "scalar":
+                e = self.expr(a, env)
+                if not e.t == cp["t"]:
+                    raise Untranslatable(f"call to {callee['cname']}: argument {i} has type {e.t}")
+                scalar[i] = e
+                d += e.d
+            elif kind == "array":
+                pe = self.pexpr(a, env)
+                A = self.arrays[pe.t.base]
+                if pe.t.scale != 1 or A.elem.w != cp["elem"].w:
+                    raise Untranslatable(f"call to {callee['cname']}: argument {i} views `{pe.t.base}` through another type")
+                if cp["writable"] and not A.writable:
+                    raise Untranslatable(f"call to {callee['cname']}: read-only array `{pe.t.base}` passed for writing")
+                if "?" + pe.t.base in env:
+                    raise Untranslatable(f"call to {callee['cname']}: an uninitialised local array is passed")
+                d += pe.d
+                a0 = self.arr_term(pe.t.base, env)
+                scalar[i] = E(a0 if pe.v == "0" else f"(List.drop {pe.v} {a0})", A)
+                dests[("array", i)] = ("arr", pe.t.base, pe.v)
+                prefixes[i] = (pe.t.base, pe.v)
+            elif kind == "cell":
+                x = strip_lv(a)
+                if x.get("kind") == "DeclRefExpr" and x["referencedDecl"].get("name") in self.cells:
+                    key = "*" + x["referencedDecl"]["name"]
+                elif x.get("kind") == "UnaryOperator" and x.get("opcode") == "&" and \
+                        strip_lv(x["inner"][0]).get("kind") == "DeclRefExpr" and \
+                        strip_lv(x["inner"][0])["referencedDecl"].get("name") in env:
+                    key = strip_lv(x["inner"][0])["referencedDecl"]["name"]
+                elif x.get("kind") == "UnaryOperator" and x.get("opcode") == "&" and \
+                        strip_lv(x["inner"][0]).get("kind") == "MemberExpr":
+                    lk = self.leaf_key(strip_lv(x["inner"][0]))
+                    if lk is None or lk[0][0] != "%" or isinstance(lk[1], PF):
+                        raise Untranslatable(f"call to {callee['cname']}: argument {i} must be the address of an integer field")
+                    key = lk[0]
+                else:
+                    raise Untranslatable(f"call to {callee['cname']}: argument {i} must be `&local`, `&p->field` or an out-parameter")
+                if env.get(key) is None:
+                    # ASSUMPTION (stated in the part): an unassigned local whose address goes to an out-parameter of the
+                    # callee is passed as 0 and counts as assigned afterwards
+                    lt = self.local_types.get(key)
+                    if lt is None or not lt == cp["elem"] or not cp.get("writable"):
+                        raise Untranslatable(f"call to {callee['cname']}: `{key}` is unassigned or of another type")
+                    scalar[i] = lit_e(0, lt)
+                else:
+                    if not env[key][1] == cp["elem"]:
+                        raise Untranslatable(f"call to {callee['cname']}: `{key}` is of another type")
+                    scalar[i] = E(env[key][0], env[key][1])
+                dests[("cell", i)] = ("var", key)
+            elif kind == "struct":
+                prefixes[i] = self.callee_struct_prefix(callee, i, a)
+            elif kind == "struct3":
+                prefix, S, const = self.callee_struct_prefix(callee, i, a)
+                if const and not cp["const"]:
+                    raise Untranslatable(f"call to {callee['cname']}: a pointer to const struct is passed for writing")
+                prefixes[i] = (prefix, S, const)
+                dests[("struct3", i)] = ("struct3", prefix, S, i)
+            else:
+                raise Untranslatable(f"call to {callee['cname']}: parameter kind {kind}")
+        for (pname, pt, origin) in callee["lean_params"]:
+            if origin[0] in ("scalar", "array", "cell"):
+                actual.append(scalar[origin[1]].v)
+            elif origin[0] == "path":
+                prefix = prefixes[origin[1]][0]
+                key = "%" + prefix + "." + ".".join(origin[2])
+                ent = env.get(key)
+                if ent is None or not ent[1] == pt:
+                    raise Untranslatable(f"call to {callee['cname']}: field `{key[1:]}` has no value / another type")
+                actual.append(ent[0])
+            elif origin[0] == "struct3":
+                prefix, S, _ = prefixes[origin[1]]
+                actual.append(self.mkstruct(prefix, S, env))
+            elif origin[0] == "farray":
+                prefix, S, _ = prefixes[origin[1]]
+                key = "%" + prefix + "." + ".".join(origin[2])
+                base = self.field_arrays.get(key)
+                if base is None or env.get("@" + base) is None:
+                    raise Untranslatable(f"call to {callee['cname']}: the array of pointer field `{key[1:]}` is not in scope")
+                if pt.writable and not self.arrays[base].writable:
+                    raise Untranslatable(f"call to {callee['cname']}: read-only array `{base}` passed for writing")
+                actual.append(env["@" + base][0])
+                dests[origin] = ("var", "@" + base)
+            else:                                             # a global the callee reads / writes
+                key = ("@" if origin[0] == "garray" else "*") + origin[1]
+                if env.get(key) is None:
+                    raise Untranslatable(f"call to {callee['cname']}: global `{origin[1]}` is not part of this function's state")
+                actual.append(env[key][0])
+                dests[(origin[0], origin[1])] = ("var", key)
+        # a callee that assigns a pointer field from one of its array parameters: where that field points afterwards
+        for i, cp in enumerate(callee["cparams"]):
+            if cp.get("kind") == "struct3" and cp.get("fieldbase"):
+                bases = {}
+                for path, j in cp["fieldbase"].items():
+                    if j not in prefixes or not isinstance(prefixes[j], tuple) or len(prefixes[j]) != 2:
+                        raise Untranslatable(f"call to {callee['cname']}: cannot tell where field `{'.'.join(path)}` points")
+                    if prefixes[j][1] != "0":
+                        raise Untranslatable(f"call to {callee['cname']}: a pointer field is set to the middle of an array")
+                    bases[path] = prefixes[j][0]
+                dests[("struct3", i)] = dests[("struct3", i)] + (bases,)
+        app = " ".join(actual)
+        d.append(f"({callee['lean']}_defined {app})" if actual else f"{callee['lean']}_defined")
+        outs = [dests[o["origin"]] for o in callee.get("outs", [])]
+        return dict(app=f"({callee['lean']} {app})" if actual else callee["lean"], d=d, callee=callee, dests=outs)
+
+    def bind_call(self, n, env, k, target=None, target_t=None):
+        parts = self.call_parts(n, env)
+        callee = parts["callee"]
+        self.nbind += 1
+        names, env2 = [], dict(env)
+        saved_scope = self.scope
+        add = []
+        if callee["ret"] is not None:
+            rn = f"r__{self.nbind}"
+            names.append(rn)
+            add.append((rn, callee["ret"]))
+            if target is not None:
+                if not callee["ret"] == target_t:
+                    raise Untranslatable(f"result of {callee['cname']} stored into a variable of another type")
+                env2[target] = (rn, callee["ret"])
+        elif target is not None:
+            raise Untranslatable(f"{callee['cname']} returns nothing")
+        for o, dest in zip(callee["outs"], parts["dests"]):
+            cn = f"{ident(o['name'])}__{self.nbind}"
+            names.append(cn)
+            add.append((cn, o["t"]))
+            if dest[0] == "struct3":
+                prefix, S = dest[1], dest[2]
+                root = prefix.split(".")[0]
+                if self.structs3[root]["const"]:
+                    raise Untranslatable(f"call to {callee['cname']} writes through a pointer to const struct")
+                bases = dest[4] if len(dest) > 4 else None
+                if bases:
+                    for path, b in bases.items():
+                        key = "%" + prefix + "." + ".".join(path)
+                        if self.field_arrays.get(key) != b:
+                            raise Untranslatable(f"call to {callee['cname']} makes `{key[1:]}` point into `{b}`: declare "
+                                                 f"fieldbase={{\"{key[1:]}\": \"{b}\"}} for this function")
+                self.bind_struct(env2, prefix, S, cn, bases)
+            elif dest[0] == "var":
+                key = dest[1]
+                if key in self.outs or key[0] not in "@*" or (key[0] == "@" and self.arrays[key[1:]].kind in ("local", "field")) \
+                        or key[0] == "%":
+                    env2[key] = (cn, o["t"])
+                else:
+                    raise Untranslatable(f"call to {callee['cname']} writes `{key}`, which was not found to be written")
+            else:
+                _, base, off = dest
+                a0 = self.arr_term(base, env)
+                env2["@" + base] = (cn if off == "0" else f"({self.CS}splice {a0} {off} {cn})", self.arrays[base])
+        self.scope = saved_scope + add
+        try:
+            V, D = k(env2)
+        finally:
+            self.scope = saved_scope
+        pat = names[0] if len(names) == 1 else "(" + ", ".join(names) + ")"
+        if not names:
+            return V, dand(parts["d"] + [D])
+        Vm = f"(match {parts['app']} with\n    | {pat} => {V})"
+        Dm = dand(parts["d"] + ([] if D == "true" else [f"(match {parts['app']} with\n    | {pat} => {D})"]))
+        return Vm, Dm
+
+    def out_call(self, n):
+        while n is not None and n.get("kind") == "ParenExpr":
+            n = n["inner"][0]
+        if n is not None and n.get("kind") == "CallExpr" and n.get("id") in self.hoisted:
+            return None
+        return Fn.out_call(self, n)
+
+    # ---- statements: assert, opaque fields, out-calls nested in expressions
+    def find_outcalls(self, n, guarded=False, acc=None):
+        """[(CallExpr with out-results, it is evaluated conditionally)] inside expression `n`, in source order"""
+        acc = [] if acc is None else acc
+        if n.get("kind") == "CallExpr" and n.get("id") not in self.hoisted and Fn.out_call(self, n) is not None:
+            acc.append((n, guarded))
+        k = n.get("kind")
+        for j, c in enumerate(n.get("inner", [])):
+            if isinstance(c, dict):
+                g = guarded or (k == "BinaryOperator" and n.get("opcode") in ("&&", "||") and j == 1) or \
+                    (k == "ConditionalOperator" and j >= 1)
+                self.find_outcalls(c, g, acc)
+        return acc
+
+    def hoist_ok(self, n, oc, lhs_ok=True):
+        """the rest of expression `n` (without the call `oc`) neither reads nor writes state the callee may modify"""
+        if n is oc:
+            return True
+        k = n.get("kind")
+        if k in ("MemberExpr", "ArraySubscriptExpr", "CallExpr") or (k == "UnaryOperator" and n.get("opcode") in ("*", "++", "--")):
+            return False
+        return all(self.hoist_ok(c, oc) for c in n.get("inner", []) if isinstance(c, dict))
+
+    def assert_cond(self, s):
+        """if `s` is glibc's expansion of `assert(e)`: the node of `e`, else None"""
+        found = []
+
+        def walk(n):
+            if n.get("kind") == "IfStmt" and n.get("hasElse") and len(n.get("inner", [])) == 3:
+                e = n["inner"][2]
+                if e.get("kind") == "CallExpr":
+                    f = e["inner"][0]
+                    while f.get("kind") in ("ImplicitCastExpr", "ParenExpr"):
+                        f = f["inner"][0]
+                    if f.get("referencedDecl", {}).get("name") == "__assert_fail":
+                        found.append(n["inner"][0])
+            for c in n.get("inner", []):
+                if isinstance(c, dict):
+                    walk(c)
+        if s.get("kind") in ("ParenExpr", "BinaryOperator", "CStyleCastExpr", "ConditionalOperator"):
+            walk(s)
+        return found[0] if found else None
+
+    def nonnull_test(self, c):
+        """`p != NULL` / `p` for a pointer parameter p (struct, array, cell): True"""
+        c = strip_lv(c)
+        while c.get("kind") in ("ParenExpr", "ImplicitCastExpr") and c.get("castKind", "PointerToBoolean") in (
+                "PointerToBoolean", "LValueToRValue", "NoOp"):
+            c = c["inner"][0]
+        names = set(self.structs3) | set(self.ptr_param_names) | set(self.cells)
+        if c.get("kind") == "DeclRefExpr" and c["referencedDecl"].get("name") in names:
+            return True
+        if c.get("kind") == "BinaryOperator" and c.get("opcode") == "!=":
+            sides = []
+            for x in c["inner"]:
+                while x.get("kind") in ("ParenExpr", "ImplicitCastExpr", "CStyleCastExpr"):
+                    x = x["inner"][0]
+                sides.append(x)
+            isnull = [x.get("kind") == "IntegerLiteral" and x.get("value") == "0" for x in sides]
+            isparm = [x.get("kind") == "DeclRefExpr" and x["referencedDecl"].get("name") in names for x in sides]
+            return (isnull[0] and isparm[1]) or (isnull[1] and isparm[0])
+        return False
+
+    def opaque_root(self, l):
+        """lvalue / pointer expression `l` lies inside an opaque field of a struct parameter"""
+        while True:
+            l = strip_lv(l)
+            k = l.get("kind")
+            if k in ("ImplicitCastExpr", "CStyleCastExpr", "ParenExpr"):
+                l = l["inner"][0]
+            elif k == "ArraySubscriptExpr":
+                l = l["inner"][0]
+            elif k == "MemberExpr":
+                ch = member_chain(l)
+                if ch is None or ch[0] not in self.structs3:
+                    return False
+                S = self.structs3[ch[0]]["S"]
+                for m in ch[1]:
+                    if m["name"] in STRUCT_OPAQUE.get(S.name, ()):
+                        return True
+                    ft = S.field(m["name"])
+                    if not isinstance(ft, STRUCT):
+                        return False
+                    S = ft
+                return False
+            else:
+                return False
+
+    def only_dropped(self, n):
+        k = n.get("kind")
+        if k == "DeclRefExpr":
+            return n["referencedDecl"].get("name") in self.dropped
+        if k in ("CallExpr", "MemberExpr", "ArraySubscriptExpr") or (k == "UnaryOperator" and n.get("opcode") in ("*", "++", "--")):
+            return False
+        return all(self.only_dropped(c) for c in n.get("inner", []) if isinstance(c, dict))
+
+    def is_opaque(self, s):
+        """statement `s` only serves an opaque (unmodelled) field: it is skipped"""
+        k = s.get("kind")
+        if k == "CompoundStmt":
+            return bool(s.get("inner")) and all(self.is_opaque(x) for x in s["inner"])
+        if k == "CallExpr":
+            f = s["inner"][0]
+            while f.get("kind") in ("ImplicitCastExpr", "ParenExpr"):
+                f = f["inner"][0]
+            if f.get("referencedDecl", {}).get("name") in ("strncpy", "memcpy", "memset", "__builtin_strncpy", "__builtin_memcpy",
+                                                          "__builtin_memset") and len(s["inner"]) >= 2:
+                return self.opaque_root(s["inner"][1]) and all(self.pure_for_opaque(a) for a in s["inner"][2:])
+            return False
+        if k == "BinaryOperator" and s.get("opcode") == "=":
+            return self.opaque_root(s["inner"][0]) and self.pure_for_opaque(s["inner"][1]) and self.pure_index(s["inner"][0])
+        if k == "IfStmt" and not s.get("hasInit") and not s.get("hasVar"):
+            return self.only_dropped(s["inner"][0]) and all(self.is_opaque(x) for x in s["inner"][1:])
+        return False
+
+    def pure_for_opaque(self, n):
+        k = n.get("kind")
+        if k == "CallExpr" or (k == "UnaryOperator" and n.get("opcode") in ("++", "--")) or \
+                k in ("CompoundAssignOperator",) or (k == "BinaryOperator" and n.get("opcode") == "="):
+            return False
+        return all(self.pure_for_opaque(c) for c in n.get("inner", []) if isinstance(c, dict))
+
+    def pure_index(self, l):
+        return self.pure_for_opaque(l)
+
+    def stmts(self, lst, env, k):
+        lst = [s for s in lst if s and s.get("kind") != "NullStmt"]
+        if not lst:
+            return k(env)
+        s, rest = lst[0], lst[1:]
+        kind = s.get("kind")
+        if self.is_opaque(s):
+            return self.stmts(rest, env, k)
+        ac = self.assert_cond(s)
+        if ac is not None:
+            if self.nonnull_test(ac):
+                return self.stmts(rest, env, k)              # ASSUMPTION: pointer parameters are valid and non-NULL
+            self.begin_full()
+            c = self.expr(ac, env)
+            env = self.end_full(ac, env)
+            V, D = self.stmts(rest, env, k)
+            return V, dand(c.d + [self.cond(c), D])          # a failing assert does not return: counted as not defined
+        # an out-call nested inside an expression (`return (int16_t)f(dec);`, `*out = f(dec);`, `x = (T)f(dec);`,
+        # `if (f(dec) != OK)`): bound first, then the statement is translated with the call replaced by its value
+        region = None
+        if kind == "ReturnStmt" and s.get("inner"):
+            region = s["inner"][0]
+            direct = self.out_call(region) is not None
+        elif kind == "DeclStmt":
+            inits = [v["inner"][0] for v in s["inner"] if v.get("kind") == "VarDecl" and "init" in v and v.get("inner")]
+            withcalls = [x for x in inits if self.find_outcalls(x)]
+            if len(withcalls) == 1 and len(s["inner"]) == 1:
+                region = withcalls[0]
+                direct = self.out_call(region) is not None
+            elif withcalls:
+                raise Untranslatable("a call with out-results in a declaration of several variables")
+        elif kind == "IfStmt":
+            region = s["inner"][0]
+            direct = False
+        elif kind in ("BinaryOperator", "CompoundAssignOperator", "UnaryOperator", "ParenExpr", "CallExpr", "CStyleCastExpr"):
+            region = s
+            direct = False
+            if kind == "CallExpr":
+                direct = self.out_call(s) is not None
+            elif kind == "BinaryOperator" and s.get("opcode") == "=" and self.out_call(s["inner"][1]) is not None:
+                lhs = strip_lv(s["inner"][0])
+                direct = lhs.get("kind") == "DeclRefExpr" and lhs["referencedDecl"].get("name") in env and \
+                    self.ptr_view(lhs["type"]) is None
+        elif kind in ("WhileStmt", "DoStmt", "ForStmt"):
+            cnd = s["inner"][0] if kind == "WhileStmt" else (s["inner"][1] if kind == "DoStmt" else s["inner"][2])
+            if cnd and self.find_outcalls(cnd):
+                raise Untranslatable("a call with out-results in a loop condition")
+        if region is not None and not direct:
+            ocs = self.find_outcalls(region)
+            if ocs:
+                if len(ocs) > 1:
+                    raise Untranslatable("several calls with out-results in one expression (their order is unspecified)")
+                oc, guarded = ocs[0]
+                if guarded:
+                    raise Untranslatable("a call with out-results under `&&`, `||` or `?:`")
+                if kind == "BinaryOperator" and s.get("opcode") == "=":
+                    ok = self.hoist_ok(s["inner"][1], oc) and self.pure_for_opaque(s["inner"][0])
+                else:
+                    ok = self.hoist_ok(region, oc)
+                if not ok:
+                    raise Untranslatable("a call with out-results inside an expression that also touches memory / fields "
+                                         "(evaluation order would matter)")
+                callee = self.callee_of(oc)
+                if callee["ret"] is None:
+                    raise Untranslatable(f"{callee['cname']} returns nothing but its value is used")
+                self.nhoist += 1
+                tkey = f"r__h{self.nhoist}"
+
+                def k2(env2):
+                    env3 = dict(env2)
+                    v, t = env3.pop(tkey)
+                    self.hoisted[oc["id"]] = E(v, t)
+                    try:
+                        return Fn.stmts(self, [s] + rest, env3, k)
+                    finally:
+                        del self.hoisted[oc["id"]]
+                return self.bind_call(oc, env, k2, target=tkey, target_t=callee["ret"])
+        return Fn.stmts(self, [s] + rest, env, k)
+
+    def assigned_in(self, nodes):
+        out = Fn.assigned_in(self, nodes)
+        calls = [False]
+
+        def walk(n):
+            k = n.get("kind")
+            if k == "CompoundAssignOperator" or (k == "BinaryOperator" and n.get("opcode") == "=") or \
+                    (k == "UnaryOperator" and n.get("opcode") in ("++", "--")):
+                l = n["inner"][0]
+                while l.get("kind") in ("ParenExpr", "ArraySubscriptExpr") or (
+                        l.get("kind") == "ImplicitCastExpr" and l.get("castKind") in ("ArrayToPointerDecay", "LValueToRValue")):
+                    l = l["inner"][0]
+                if l.get("kind") == "MemberExpr":
+                    try:
+                        lk = self.leaf_key(l)
+                    except Untranslatable:
+                        lk = None
+                    if lk is not None:
+                        out.add(lk[0])
+                        if isinstance(lk[1], PF) and n["inner"][0] is not l and self.field_arrays.get(lk[0]):
+                            out.add("@" + self.field_arrays[lk[0]])
+            if k == "CallExpr":
+                try:
+                    c_ = self.callee_of(n)
+                except Untranslatable:
+                    c_ = None
+                if isinstance(c_, dict) and c_.get("outs"):
+                    calls[0] = True
+            for c in n.get("inner", []):
+                if isinstance(c, dict):
+                    walk(c)
+        for n in nodes:
+            if n:
+                walk(n)
+        if calls[0]:
+            # conservative: a callee with out-results may modify every field of every writable struct parameter
+            for nm, info in self.structs3.items():
+                if not info["const"]:
+                    for path, t_ in info["S"].leaves():
+                        out.add(("@" if isinstance(t_, AF) else "%") + nm + "." + ".".join(path))
+        return out
+
+
+def order_struct_fields_rec(S, unit, tj):
+    order_struct_fields(S, unit, tj)
+    for n_, t_ in S.fields:
+        if isinstance(t_, STRUCT) and t_.order is None:
+            # the nested struct's own record: found through its tag, which clang prints in the desugared field type
+            order_struct_fields(t_, unit, STRUCT_TYPES.get(t_.name, {"qualType": t_.name}))
+            order_struct_fields_rec(t_, unit, STRUCT_TYPES.get(t_.name, {"qualType": t_.name}))
+
+
+STRUCT_TYPES = {}       # struct name -> a clang type json that denotes it (for the RecordDecl query)
+
+
+def struct_deps(S, seen=None):
+    """`S` and the struct types nested in it, innermost first"""
+    seen = [] if seen is None else seen
+    for _, t_ in S.fields:
+        if isinstance(t_, STRUCT):
+            struct_deps(t_, seen)
+    if S not in seen:
+        seen.append(S)
+    return seen
+# ---- END stage 3 (translator part; shims and tables: `shim3`, `lean_table3` below)
 
 
 class Unit:
@@ -2608,6 +4051,8 @@ def emit_shims(fns, externals):
               "typedef struct { uint64_t n; void* p; size_t len; } cfun_val;", "#endif", ""]
         for fn in [g_ for g_ in group if g_.cfg["stage"] == 2]:
             L += shim2(fn)
+        for fn in [g_ for g_ in group if g_.cfg["stage"] == 3]:
+            L += shim3(fn)
         for fn in [g_ for g_ in group if g_.cfg["stage"] == 1]:
             L.append(f"uint64_t cfunx_{fn.name}(const uint64_t* a) {{")
             args, idx = [], 0
@@ -2667,7 +4112,9 @@ def emit_shims(fns, externals):
                   f'{{{", ".join(map(str, fx)) or "0"}}}, {{{", ".join(map(str, ok)) or "0"}}}, cfunx2_{fn.name}}},')
     if not fns2:
         T_.append('    {"", 0, 0, {0}, {0}, {0}, 0},')
-    T_ += ["};", f"#define CFUN2_TABLE_N {len(fns2)}", "#endif"]
+    T_ += ["};", f"#define CFUN2_TABLE_N {len(fns2)}"]
+    T_ += table3_c([fn for fn in fns if fn.cfg["stage"] == 3])
+    T_ += ["#endif"]
     wanted[os.path.join(GENH, "gen_cfun_table.h")] = "\n".join(T_) + "\n"
     os.makedirs(GENH, exist_ok=True)
     for old in os.listdir(GENH):
@@ -2849,10 +4296,261 @@ def lean_table2(fns):
     return "\n".join(L) + "\n"
 
 
+# ---- BEGIN stage 3 (cfun3): C shims and the third table
+def c_ptr_type(pf):
+    return ("const " if pf.const else "") + c_int_type(pf.elem) + "*"
+
+
+def shim3(fn):
+    """C wrapper of a stage-3 function: `void cfunx3_<name>(cfun_val* a, cfun_val* o)`.  A struct argument arrives as the
+    array of its leaf values (uint64_t each, in `STRUCT.leaves()` order; array fields element by element); a pointer
+    leaf is the offset into the array argument it points into (or, when the function never dereferences it, the raw
+    pointer value, which must come back unchanged).  After the call every leaf of a non-const struct is written back."""
+    L = [f"void cfunx3_{fn.name}(cfun_val* a, cfun_val* o) {{"]
+    slot = {pn: i for i, (pn, _, _) in enumerate(fn.lean_params)}
+    args, post = [], {}
+    for (pn, pt, origin) in fn.lean_params:
+        if origin[0] == "gcell":
+            L.append(f"    {origin[1]} = ({c_int_type(pt)})a[{slot[pn]}].n;")
+        elif origin[0] == "garray":
+            L.append(f"    memcpy({origin[1]}, a[{slot[pn]}].p, sizeof {origin[1]});")
+
+    def base_slot(p, path):
+        if path in p["fieldbase"]:
+            return slot[ident(fn.cparams[p["fieldbase"][path]]["name"])]
+        for fa in p["farrays"]:
+            if fa["path"] == path:
+                return slot[ident(fa["name"])]
+        return None
+    for i, p in enumerate(fn.cparams):
+        if p["kind"] == "scalar":
+            j = slot[ident(p["name"])]
+            args.append(f"(a[{j}].n != 0)" if p["t"].is_bool else f"({p['ctype']})({c_int_type(p['t'])})a[{j}].n")
+        elif p["kind"] == "array":
+            args.append(f"({p['ctype']})a[{slot[ident(p['name'])]}].p")
+        elif p["kind"] == "end":
+            args.append(f"({p['ctype']})(({c_int_type(p['t'].elem)}*)a[{slot[ident(p['base'])]}].p + a[{slot[ident(p['name'])]}].n)")
+        elif p["kind"] == "cell":
+            j = slot[ident(p["name"])]
+            L.append(f"    {c_int_type(p['elem'])} c{i} = ({c_int_type(p['elem'])})a[{j}].n;")
+            args.append(f"({p['ctype']})&c{i}")
+            post[("cell", i)] = f"c{i}"
+        elif p["kind"] == "dropped":
+            args.append(f'({p["ctype"]})"cfun3"')
+        elif p["kind"] == "struct3":
+            j = slot[ident(p["name"])]
+            L.append(f"    static {p['cstruct']} s{i}; memset(&s{i}, 0, sizeof s{i});")
+            L.append(f"    const uint64_t* l{i} = (const uint64_t*)a[{j}].p;")
+            k = 0
+            for path, t_ in p["S"].leaves():
+                cp_ = ".".join(path)
+                if isinstance(t_, AF):
+                    ce = c_int_type(t_.elem)
+                    L.append(f"    for (int m = 0; m < {t_.total()}; m++) (({ce}*)s{i}.{cp_})[m] = ({ce})l{i}[{k} + m];")
+                    k += t_.total()
+                    continue
+                if isinstance(t_, PF):
+                    b = base_slot(p, path)
+                    if path in p["fieldbase"]:
+                        pass                                 # assigned by the function itself; the incoming value is not used
+                    elif b is not None:
+                        L.append(f"    s{i}.{cp_} = ({c_ptr_type(t_)})(({c_int_type(t_.elem)}*)a[{b}].p + l{i}[{k}]);")
+                    else:
+                        L.append(f"    s{i}.{cp_} = ({c_ptr_type(t_)})(uintptr_t)l{i}[{k}];")
+                elif t_.is_bool:
+                    L.append(f"    s{i}.{cp_} = (l{i}[{k}] != 0);")
+                else:
+                    L.append(f"    s{i}.{cp_} = ({c_int_type(t_)})l{i}[{k}];")
+                k += 1
+            args.append(f"({p['ctype']})&s{i}")
+        else:
+            die(f"{fn.name}: a read-only struct access path in a stage-3 function")
+    call = f"{fn.cfg['cname']}({', '.join(args)})"
+    k = 0
+    if fn.ret is None:
+        L.append(f"    {call};")
+    else:
+        L.append(f"    o[0].n = " + (f"{call} ? 1u : 0u;" if fn.ret.is_bool else f"(uint64_t)(uint{fn.ret.w}_t){call};"))
+        k = 1
+    for o in fn.out_desc:
+        kind = o["origin"][0]
+        if kind == "cell":
+            L.append(f"    o[{k}].n = (uint64_t)(uint{o['t'].w}_t){post[o['origin']]};")
+        elif kind == "array":
+            j = slot[ident(fn.cparams[o['origin'][1]]['name'])]
+            L.append(f"    o[{k}].p = a[{j}].p; o[{k}].len = a[{j}].len;")
+        elif kind == "farray":
+            j = slot[ident(o["name"])]
+            L.append(f"    o[{k}].p = a[{j}].p; o[{k}].len = a[{j}].len;")
+        elif kind == "struct3":
+            i = o["origin"][1]
+            p = fn.cparams[i]
+            n = p["S"].nleaves()
+            L.append(f"    static uint64_t q{i}[{n}];")
+            m = 0
+            for path, t_ in p["S"].leaves():
+                cp_ = ".".join(path)
+                if isinstance(t_, AF):
+                    ce = c_int_type(t_.elem)
+                    L.append(f"    for (int m = 0; m < {t_.total()}; m++) q{i}[{m} + m] = (uint64_t)(uint{t_.elem.w}_t)(({ce}*)s{i}.{cp_})[m];")
+                    m += t_.total()
+                    continue
+                if isinstance(t_, PF):
+                    b = base_slot(p, path)
+                    if b is not None:
+                        ce = c_int_type(t_.elem)
+                        L.append(f"    q{i}[{m}] = (uint64_t)((const {ce}*)s{i}.{cp_} - (const {ce}*)a[{b}].p);")
+                    else:
+                        L.append(f"    q{i}[{m}] = (uint64_t)(uintptr_t)s{i}.{cp_};")
+                elif t_.is_bool:
+                    L.append(f"    q{i}[{m}] = s{i}.{cp_} ? 1u : 0u;")
+                else:
+                    L.append(f"    q{i}[{m}] = (uint64_t)(uint{t_.w}_t)s{i}.{cp_};")
+                m += 1
+            L.append(f"    o[{k}].p = q{i}; o[{k}].len = {n};")
+        elif kind == "gcell":
+            L.append(f"    o[{k}].n = (uint64_t)(uint{o['t'].w}_t){o['origin'][1]};")
+        else:
+            L.append(f"    o[{k}].p = (void*){o['origin'][1]}; o[{k}].len = {o['t'].total()};")
+        k += 1
+    L.append("}")
+    return L
+
+
+def kind3_c(t):
+    """element size in bytes of an argument / result on the C side (0: integer; struct: its leaves as uint64_t)"""
+    if isinstance(t, STRUCT):
+        return 8
+    return t.elem.w // 8 if isinstance(t, ARR) else 0
+
+
+def table3_c(fns3):
+    T_ = ["/* stage 3: as stage 2; a struct argument / result is the array of its leaf values (kind 8, fixed length) */"]
+    for fn in fns3:
+        T_.append(f"void cfunx3_{fn.name}(cfun_val* a, cfun_val* o);")
+    T_.append("static const cfun2_entry cfun3_table[] = {")
+    for fn in fns3:
+        ak = [kind3_c(t) for _, t, _ in fn.lean_params]
+        fx = [(t.nleaves() if isinstance(t, STRUCT) else (t.total() if isinstance(t, ARR) and t.dims is not None else 0))
+              for _, t, _ in fn.lean_params]
+        comps = ([fn.ret] if fn.ret is not None else []) + [o["t"] for o in fn.out_desc]
+        ok = [kind3_c(t) for t in comps]
+        if len(ak) > 24 or len(ok) > 24:
+            die(f"{fn.name}: more than 24 arguments / results")
+        T_.append(f'    {{"{fn.name}", {len(ak)}, {len(ok)}, {{{", ".join(map(str, ak)) or "0"}}}, '
+                  f'{{{", ".join(map(str, fx)) or "0"}}}, {{{", ".join(map(str, ok)) or "0"}}}, cfunx3_{fn.name}}},')
+    if not fns3:
+        T_.append('    {"", 0, 0, {0}, {0}, {0}, 0},')
+    T_ += ["};", f"#define CFUN3_TABLE_N {len(fns3)}"]
+    return T_
+
+
+def leaf_layout(fn, p):
+    """[(dotted leaf path, Lean `Kind`, count)] of struct parameter `p` of `fn`: how the driver generates / reads leaves"""
+    out = []
+    for path, t_ in p["S"].leaves():
+        nm = ".".join(path)
+        if isinstance(t_, AF):
+            out.append((nm, f"(.arr {t_.elem.w})", t_.total()))
+        elif isinstance(t_, PF):
+            base = ""
+            if path in p["fieldbase"]:
+                base = ident(fn.cparams[p["fieldbase"][path]]["name"])
+            for fa in p["farrays"]:
+                if fa["path"] == path:
+                    base = ident(fa["name"])
+            out.append((nm, f'(.off "{base}")', 1))
+        else:
+            out.append((nm, kind_of(t_), 1))
+    return out
+
+
+def lean_table3(fns):
+    """stage 3: as table2; a struct argument / result is the `Val.a` of its leaves"""
+    L = ["", "/-! ### table of the stage-3 functions (struct state) for the driver -/", "",
+         "open Carquet.Impl.CSem (Val Kind) in",
+         "/-- a translated function with struct arguments: as `Entry2`; a struct travels as the list of its leaf values, `layout`",
+         "names the leaves of each struct argument `(dotted path, kind, number of values)`; a pointer leaf `.off base` is an offset",
+         "into the array argument `base` (`\"\"`: a raw pointer value the function must leave alone), `struct` its C type -/",
+         "structure Entry3 where",
+         "  name : String",
+         "  cname : String",
+         "  file : String",
+         "  args : List (String × Kind)",
+         "  outs : List (String × Kind)",
+         "  fixed : List (String × Nat)",
+         "  layout : List (String × String × List (String × Kind × Nat))",
+         "  eval : List Val → Option (List Val × Bool)",
+         "", "open Carquet.Impl.CSem (Val Kind) in", "def table3 : List Entry3 := ["]
+    rows = []
+    for fn in fns:
+        pats, conv = [], []
+        for i, (pn, pt, _) in enumerate(fn.lean_params):
+            if isinstance(pt, STRUCT):
+                pats.append(f".a a{i}")
+                conv.append(f"({pt.name}.ofLeaves a{i})")
+            elif isinstance(pt, ARR):
+                pats.append(f".a a{i}")
+                conv.append(f"(a{i}.map UInt8.ofNat)" if pt.elem.w == 8 else f"(a{i}.map (BitVec.ofNat {pt.elem.w}))")
+            elif isinstance(pt, PTR):
+                pats.append(f".n a{i}")
+                conv.append(f"a{i}")
+            else:
+                pats.append(f".n a{i}")
+                conv.append(f"(decide (a{i} ≠ 0))" if pt.is_bool else f"(BitVec.ofNat {pt.w} a{i})")
+        app = " ".join(conv)
+        comps = ([("return", fn.ret)] if fn.ret is not None else []) + [(o["name"], o["t"]) for o in fn.out_desc]
+        outs = []
+        for i, (cn, ct) in enumerate(comps):
+            proj = "r" if len(comps) == 1 else "r" + ".2" * i + (".1" if i < len(comps) - 1 else "")
+            if isinstance(ct, STRUCT):
+                outs.append(f".a {proj}.toLeaves")
+            elif isinstance(ct, ARR):
+                outs.append(f".a ({proj}.map (·.toNat))")
+            elif ct.is_bool:
+                outs.append(f".n (if {proj} then 1 else 0)")
+            else:
+                outs.append(f".n {proj}.toNat")
+
+        def kk(t):
+            return "(.arr 64)" if isinstance(t, STRUCT) else kind_of(t)
+        args = ", ".join(f'("{pn}", {kk(pt)})' for pn, pt, _ in fn.lean_params)
+        outk = ", ".join(f'("{cn}", {kk(ct)})' for cn, ct in comps)
+        fixed = [f'("{ident(g)}", {fn.arrays[g].total()})' for g in sorted(fn.arrays) if fn.arrays[g].kind == "global"]
+        fixed += [f'("{pn}", {pt.nleaves()})' for pn, pt, _ in fn.lean_params if isinstance(pt, STRUCT)]
+        fixed += [f'("{pn}", {pt.total()})' for pn, pt, og in fn.lean_params if og[0] == "ghost"]
+        lay = []
+        for p in fn.cparams:
+            if p["kind"] == "struct3":
+                leaves = ", ".join(f'("{a_}", {b_}, {c_})' for a_, b_, c_ in leaf_layout(fn, p))
+                lay.append(f'("{ident(p["name"])}", "{p["S"].name}", [{leaves}])')
+        call = f"{fn.name} {app}" if app else fn.name
+        calld = f"{fn.name}_defined {app}" if app else f"{fn.name}_defined"
+        rows.append(
+            f'  {{ name := "{fn.name}", cname := "{fn.cfg["cname"]}", file := "{fn.cfg["file"]}",\n'
+            f'    args := [{args}],\n'
+            f'    outs := [{outk}],\n'
+            f'    fixed := [{", ".join(fixed)}],\n'
+            f'    layout := [{", ".join(lay)}],\n'
+            f'    eval := fun a => match a with\n'
+            f'      | [{", ".join(pats)}] =>\n'
+            f'        if {calld} then\n'
+            f'          let r := {call}\n'
+            f'          some ([{", ".join(outs)}], true)\n'
+            f'        else some ([], false)\n'
+            f'      | _ => none }}')
+    L.append(",\n".join(rows) + " ]")
+    return "\n".join(L) + "\n"
+# ---- END stage 3 (shims and table)
+
+
+
 def main():
     fns = []
     externals = {}
     dev = os.environ.get("CFUN_DEV")
+    if os.environ.get("CFUN_STAGES") == "12":
+        FUNCS[:] = [c for c in FUNCS if c["stage"] != 3]
     if dev:
         keep = set(dev.split(","))
         FUNCS[:] = [c for c in FUNCS if c["lean"] in keep]
@@ -2872,10 +4570,12 @@ def main():
             units[f].prepare([asts[c["lean"]] for c in FUNCS if c["file"] == f])
             if f.endswith(".c") and not f.startswith("@"):
                 externals[f] = external_symbols(units[f].path, tmp)
+        if any(c["stage"] == 3 for c in FUNCS):               # stage 3: which fields of which structs are touched
+            discover_structs(FUNCS, asts, units)
         for cfg in FUNCS:
             u = units[cfg["file"]]
             a = asts[cfg["lean"]]
-            fn = Fn(cfg, a, u)
+            fn = (Fn3 if cfg["stage"] == 3 else Fn)(cfg, a, u)
             txt, line = source_text(u.path, a)
             fn.sha, fn.line = hashlib.sha256(txt).hexdigest()[:16], line
             try:
@@ -2908,9 +4608,18 @@ def main():
          "set_option linter.unusedVariables false",
          "namespace Carquet.Gen.CFun", ""]
     for fn in fns:
+        if fn.cfg["stage"] == 3:                               # the structures a stage-3 function uses, before its first use
+            for p_ in fn.cparams:
+                if p_.get("kind") == "struct3":
+                    for S_ in struct_deps(p_["S"]):
+                        if not S_.emitted:
+                            S_.emitted = True
+                            L.append(lean_struct_decl(S_))
         L.append(fn.text)
     L.append(lean_table([fn for fn in fns if fn.cfg["stage"] == 1]))
     L.append(lean_table2([fn for fn in fns if fn.cfg["stage"] == 2]))
+    if any(fn.cfg["stage"] == 3 for fn in fns):
+        L.append(lean_table3([fn for fn in fns if fn.cfg["stage"] == 3]))
     L += ["end Carquet.Gen.CFun", ""]
     gen.emit("CFun.lean", "\n".join(L))
     emit_shims(fns, externals)
